@@ -15,7 +15,14 @@ tvars == <<l, fails>>
 TInit == l = 1 /\ fails = <<>>
 Expected(r) == IF r.match # 0 /\ r.match < r.T THEN [res |-> "delivered", at |-> r.match]
                ELSE [res |-> "TimeoutError", at |-> r.T]
+(* signals = TRUE: the process handled signals while the (sync) request was blocked.  What the interrupted call returns is not the
+   property's business (the library reports the interruption as OSError at once; retrying is legitimate as well) - only the bound is:
+   the call is over by its deadline. *)
 Good(r) == LET x == Expected(r) IN
+           IF r.signals
+             THEN /\ r.result \in {"TimeoutError", "OSError", "InterruptedError", "delivered"}
+                  /\ r.elapsed_ms <= r.T * r.tick_ms + r.slack_ms
+             ELSE
            /\ r.result = x.res
            /\ r.elapsed_ms <= x.at * r.tick_ms + r.slack_ms          \* never outlives its timeout (plus slack)
            /\ r.elapsed_ms + r.early_ms >= x.at * r.tick_ms           \* and does not give up early
